@@ -239,6 +239,7 @@ Inductive api_attr : Type :=
 | AClusterList (ids : list (list N))
 | AExtCommunities (l : list api_extcom)
 | ALargeCommunities (l : list (N * N * N))
+| AMpReach (fam : option (N * N)) (nhs : list (list N))   (* MpReachNLRIAttribute: family, next_hops (nlris are ignored) *)
 | AOther.   (* mp_unreach, as4_path, as4_aggregator, pmsi_tunnel, ip6_extended_communities, aigp *)
 
 Section WithV6.
@@ -516,6 +517,10 @@ Section WithV6.
         end
     end.
 
+  (* the four flowspec families (afi * 65536 + safi) *)
+  Definition is_fs_family (fam : N) : bool :=
+    (fam =? 65669) || (fam =? 131205) || (fam =? 65670) || (fam =? 131206).
+
   Definition seg_ok (s : Z * list N) : bool :=
     (1 <=? fst s)%Z && (fst s <=? 4)%Z && Nat.leb (length (snd s)) 255 && Nat.leb 1 (length (snd s)).
 
@@ -568,6 +573,7 @@ Section WithV6.
     | ALargeCommunities l =>
         Ok (new_with_bin LARGE_COMMUNITY
               (flat_map (fun t => be32 (fst (fst t)) ++ be32 (snd (fst t)) ++ be32 (snd t)) l))
+    | AMpReach _ _ => Ok None   (* not part of the first model *)
     | AOther => Ok None
     end.
 
@@ -637,6 +643,28 @@ Section WithV6.
     | ALargeCommunities l =>
         Ok (nonempty_bin LARGE_COMMUNITY
               (flat_map (fun t => be32 (fst (fst t)) ++ be32 (snd (fst t)) ++ be32 (snd t)) l))
+    | AMpReach fam nhs =>
+        match fam with
+        | None => Ok None
+        | Some (afi, safi) =>
+            let a16 := afi mod 65536 in
+            let s8 := safi mod 256 in
+            if is_fs_family (a16 * 65536 + s8) && (match nhs with [] => true | _ => false end)
+            then Ok (new_with_bin MP_REACH (be16 a16 ++ [s8; 0; 0]))
+            else
+              match nhs with
+              | [] => Ok None
+              | nh :: _ =>
+                  let nhb := match ip4_of_string nh with
+                             | Some a => Some (be32 a)
+                             | None => match v6_of_string nh with Some a => Some (to_bytes 16 a) | None => None end
+                             end in
+                  match nhb with
+                  | Some b => Ok (new_with_bin MP_REACH (be16 a16 ++ [s8; N.of_nat (length b)] ++ b ++ [0]))
+                  | None => Ok None
+                  end
+              end
+        end
     | AOther => Ok None
     end.
 
@@ -840,11 +868,20 @@ End Guarded.
 (* printers                                                            *)
 Definition v_bytes (l : list N) : val := VNs l.
 
+(* a value of more than 1024 octets is printed as [-7, length, sum mod 2^32, first 4, last 4]
+   (the harness prints the same digest) *)
+Definition v_bytes_c (l : list N) : val :=
+  let n := length l in
+  if Nat.ltb 1024 n
+  then VL [VI (-7); VN (N.of_nat n); VN (fold_left (fun acc b => (acc + b) mod 4294967296) l 0);
+           VNs (firstn 4 l); VNs (skipn (n - 4) l)]
+  else VNs l.
+
 Definition v_attr (a : attr) : val :=
   match a_data a with
   | DVal v => VL [VN (a_code a); VN (a_flags a); VI 0; VL [VN v]]
-  | DBin b => VL [VN (a_code a); VN (a_flags a); VI 1; v_bytes b]
-  | DOpaque b => VL [VN (a_code a); VN (a_flags a); VI 2; v_bytes b]
+  | DBin b => VL [VN (a_code a); VN (a_flags a); VI 1; v_bytes_c b]
+  | DOpaque b => VL [VN (a_code a); VN (a_flags a); VI 2; v_bytes_c b]
   end.
 
 Definition v_extcom (x : api_extcom) : val :=
@@ -881,6 +918,7 @@ Definition v_api (x : api_attr) : val :=
   | AExtCommunities l => VL [VI 14; VList v_extcom l]
   | ALargeCommunities l =>
       VL [VI 21; VList (fun t => VL [VN (fst (fst t)); VN (snd (fst t)); VN (snd t)]) l]
+  | AMpReach fam nhs => VL [VI 12; VOpt (fun f => VL [VN (fst f); VN (snd f)]) fam; VList v_bytes nhs]
   | AOther => VL [VI 99]
   end.
 
